@@ -169,9 +169,9 @@ pub fn error_offsets(cx: &mut Ctx, rule: &str) {
             let mut sites = vec![];
             collect_offset_exprs(e, &mut sites);
             for (what, x) in sites {
-                let t = sm::tsc(&x);
+                let t = sm::tsx(&x);
                 let bindings: BTreeSet<String> = a.syms.iter().filter(|s| matches!(s.kind, crate::grammar::SymKind::Lookahead | crate::grammar::SymKind::Lookbehind)).filter_map(|s| s.binding.clone()).collect();
-                let ok = bindings.contains(&t) || t.ends_with(".start()") || t.ends_with(".end()");
+                let ok = bindings.contains(&t.text) || t.ends_with(".start()") || t.ends_with(".end()");
                 if ok {
                     cx.ok(rule, &format!("{}: {} at `{}`", crate::rules::grammar_rules::alt_key(d, a), what, t));
                 } else {
@@ -264,7 +264,7 @@ fn check_offsets_in_file(cx: &mut Ctx, rule: &str, src: &Src) {
         let mut n = 0;
         for (what, x) in sites {
             n += 1;
-            let t = sm::tsc(&x);
+            let t = sm::tsx(&x);
             let ok = is_position_text(&t, &ps, &pos_locals);
             let literal = t.contains("default()") || t.contains("TextSize::from(") || t.contains("TextSize::new(") || t == "0.into()";
             let key = if fname == "Stmt::parse_tokens" && literal { format!("{}/stmt-eof-offset", rule) } else { format!("{}/{}/{}#{}", rule, fname, what, n) };
